@@ -39,7 +39,7 @@ func firstLit(n ast.Node) *ast.FuncLit {
 
 func init() {
 	prop("C08",
-		"(a) Checkpoint rotates the WAL, captures the level list and the last sequence number and registers the checkpoint in one db.mu write-locked section, with the pre-rotation writer; (b) the sealed WAL is saved before the checkpoints file, both errors are returned, and the handle is produced only after both; (c) Rotate carries every unflushed segment together with its sequence watermark into the next writer, in segment structs of its own (a segment holds the read cursor Save advances, so a struct shared with the old writer is drained by whichever is saved first); (d) Truncate keeps exactly the segments above the flushed sequence number, its argument and the handle's After come from the level list they describe; (e) the WAL record writer and both reader loops agree on the record layout; (f) a captured level list is immutable; (g) LatestSeqNum bounds every table's sequence numbers; (h) a sealed writer rejects mutation; plus C01.h, C07.d, C07.e, C07.j.",
+		"(a) Checkpoint rotates the WAL, captures the level list and the last sequence number and registers the checkpoint in one db.mu write-locked section, with the pre-rotation writer; (b) the sealed WAL is saved before the checkpoints file, both errors are returned, and the handle is produced only after both; (c) Rotate carries every unflushed segment together with its sequence watermark into the next writer, in segment structs of its own (a segment holds the read cursor Save advances, so a struct shared with the old writer is drained by whichever is saved first); (d) Truncate keeps exactly the segments above the flushed sequence number, its argument and the handle's After come from the level list they describe; (e) the WAL record writer and both reader loops agree on the record layout; (f) a captured level list is immutable; (g) LatestSeqNum bounds every table's sequence numbers; (h) a sealed writer rejects mutation; (i) WAL files are never reused: a rotated writer is numbered id+1 and a restored database's writer one above the highest WAL id of the checkpoint it starts from; plus C01.h, C07.d, C07.e, C07.j.",
 		"the reader's skip arithmetic over runtime sequence numbers beyond the expression's form; crash-point behaviour of the file system; equality of restored contents.")
 
 	register(&Obligation{ID: "C08.a", Props: []string{"C08", "C01"}, Template: "atomic-section",
